@@ -22,7 +22,7 @@ import (
 	"verif/vk"
 )
 
-const c16Rule = "rapid state machine over 1-3 sessions sharing one directory/database: set/incr counters, save, save-and-increment (ascending numbers per epoch, gaps allowed), get/iterate over arbitrary ranges, iterate with aborting callback, refresh, reset, close+reopen, second fresh instance; every return value compared with an in-memory model after every action; non-trivial = history with a save later followed by a refresh/reopen/second instance and a read; distinct = distinct operation trace"
+const c16Rule = "rapid state machine over 1-3 sessions sharing one directory/database: set/incr counters, save, save-and-increment (ascending numbers per epoch, gaps allowed), get/iterate over arbitrary ranges, iterate with aborting callback, refresh, reset, close+reopen, second fresh instance; every return value compared with an in-memory model after every action, a store reopened on a session file left empty or half-written; non-trivial = history with a save later followed by a refresh/reopen/second instance and a read; distinct = distinct operation trace"
 
 func c16() *stats.Collector {
 	c := stats.Get("C16")
@@ -59,6 +59,9 @@ type storeUnderTest struct {
 	st      quickfix.MessageStore
 	model   *storeModel
 	factory quickfix.MessageStoreFactory
+	// sessionFile: (file stores) the file this store keeps its creation time in, learnt by looking at
+	// what appeared in the directory when the store was first created ("" when that was not exactly one file)
+	sessionFile string
 }
 
 func genSessionIDs(t *rapid.T, n int) []quickfix.SessionID {
@@ -208,20 +211,41 @@ func c16Machine(t *rapid.T, kind string) {
 	}
 	var suts []*storeUnderTest
 	var trace []string
+	sessionFiles := func() map[string]bool {
+		m := map[string]bool{}
+		l, _ := filepath.Glob(filepath.Join(dir, "*.session"))
+		for _, f := range l {
+			m[f] = true
+		}
+		return m
+	}
 	for _, id := range ids {
 		before := time.Now()
+		had := sessionFiles()
 		st, err := factory.Create(id)
 		if err != nil {
 			fail("create-error", "%v", err)
 		}
 		after := time.Now()
+		mine := ""
+		if strings.HasPrefix(kind, "file") && !collide {
+			for f := range sessionFiles() {
+				if !had[f] {
+					if mine != "" {
+						mine = ""
+						break
+					}
+					mine = f
+				}
+			}
+		}
 		m := newStoreModel()
 		ct := st.CreationTime()
 		if ct.Before(before.Add(-time.Second)) || ct.After(after.Add(time.Second)) {
 			fail("creation-time-not-now", "fresh store creation time %v outside [%v,%v]", ct, before, after)
 		}
 		m.created = ct
-		suts = append(suts, &storeUnderTest{id: id, st: st, model: m, factory: factory})
+		suts = append(suts, &storeUnderTest{id: id, st: st, model: m, factory: factory, sessionFile: mine})
 	}
 	defer func() {
 		for _, s := range suts {
@@ -407,6 +431,37 @@ func c16Machine(t *rapid.T, kind string) {
 			if savedSinceReopen {
 				feat["reopen-after-save"] = true
 			}
+		},
+		"reopenAfterInterruptedSessionFileWrite": func(t *rapid.T) {
+			// the directory a process leaves behind that died between creating its session file and
+			// writing the time into it (or lost power before the data reached the disk): the file is
+			// there and empty. The store opened on it gives itself a creation time - and from then
+			// on that is the session's creation time, after a refresh and for a fresh store alike
+			s := suts[rapid.IntRange(0, len(suts)-1).Draw(t, "s")]
+			if s.sessionFile == "" {
+				t.Skip("not a file store with its own session file")
+			}
+			trace = append(trace, fmt.Sprintf("%d.Close,session-file-emptied,Reopen", idx(suts, s)))
+			if err := s.st.Close(); err != nil {
+				fail("op-error", "Close: %v", err)
+			}
+			if err := os.WriteFile(s.sessionFile, rapid.SampledFrom([][]byte{{}, []byte("2024-"), []byte("\x00\x00\x00")}).Draw(t, "left-in-the-file"), 0660); err != nil {
+				t.Fatalf("harness: %v", err)
+			}
+			before := time.Now()
+			st, err := s.factory.Create(s.id)
+			if err != nil {
+				s.st = nil
+				fail("reopen-error", "reopen on an empty session file: %v after %v", err, trace)
+			}
+			s.st = st
+			ct := st.CreationTime()
+			if ct.Before(before.Add(-time.Second)) || ct.After(time.Now().Add(time.Second)) {
+				fail("creation-time-not-now", "store opened on an empty session file: creation time %v outside [%v,now]", ct, before)
+			}
+			s.model.created = ct
+			compare(s, st, "store reopened on an empty session file")
+			feat["reopen-on-an-empty-session-file"] = true
 		},
 		"externalChange": func(t *rapid.T) {
 			// another instance on the same backing store (a standby process, an operator's tool)
